@@ -101,6 +101,12 @@ impl Profile for Remotes {
     fn check(&self, plan: &Plan, rec: &RunRecord, reg: &Reg, cells: &mut Cells) -> Vec<Finding> {
         let mut out = remote::check(rec, reg, &Which { c10: true, c20: true }, cells);
         out.extend(dispatch::check(rec, &all_ops(plan), reg, &DWhich { c02: true, c04: true }, cells));
+        // every call in these worlds is built by a helper: none of them may take the chain down
+        for op in &rec.ops {
+            if let crate::world::Outcome::Panic(p) = &op.outcome {
+                out.push(Finding::new("C10", "c10.panic", op.idx, format!("an operation made of helper-built calls panicked: {p}")));
+            }
+        }
         out
     }
 }
